@@ -86,7 +86,7 @@ class Disposables:
         exception: BaseException,
         /,
     ) -> None:
-        await gather(
+        results: list[bool | BaseException | None] = await gather(
             *[
                 disposable.__aexit__(
                     type(exception),
@@ -97,6 +97,17 @@ class Disposables:
             ],
             return_exceptions=True,
         )
+
+        # do not lose errors of disposing, propagate them with the original failure as the cause
+        exceptions: list[BaseException] = [
+            exc for exc in results if isinstance(exc, BaseException) and exc is not exception
+        ]
+
+        if len(exceptions) == 1:
+            raise exceptions[0] from exception
+
+        elif len(exceptions) > 1:
+            raise BaseExceptionGroup("Disposing errors", exceptions) from exception
 
     async def __aexit__(
         self,
